@@ -253,6 +253,10 @@ def run(ctx):
 
     # 'prescribing that field on the boundary and solving': beam structures with connections go through the multiplier system
     ctx.attempt(_c04.lagrange_rule, ctx)
+    from .c08 import mesh_motion_rule as _mesh_motion_rule
+
+    # the patch test on a mesh that was used, then moved: the strain operators must be those of the moved geometry
+    ctx.attempt(_mesh_motion_rule, ctx, "R1.11")
     from ..shared import group_loop_leak_rule as _group_loop_leak_rule
 
     ctx.attempt(_group_loop_leak_rule, ctx, "R1.9", scope=lambda f, _s=("EasyFEA.Simulations",): f.module.name.startswith(_s), min_instances=8)
